@@ -155,6 +155,11 @@ Fixpoint dspec_log (h : list dop) (acc : log) : log :=
 (** ** Correspondence cases *)
 Inductive dcstep :=
 | DOp (o : dop) (ok : bool)
+  (** a sub-step of an ATOMIC WriteSnapshot call whose own success is not observable (only the call's
+      error is): the model takes the step, no flag is compared.  Used for the clear / WAL-remove halves
+      of an atomic snapshot: whether the engine regards a snapshot as empty depends on Cache.Size(),
+      which over-reports after in-place dedup (C09's finding), not on the entries. *)
+| DOpAny (o : dop)
 | DRead (k : key) (lo hi : Z) (asc : bool) (res : list (Z * Z))
   (** a crash image taken here (directory copy, reopened by a second engine): the full
       ascending read of keys 0,1,2,... in order; the running engine is NOT affected *)
@@ -167,7 +172,7 @@ Inductive dcstep :=
       acknowledged operations [ops] (with their observed success flags), is crashed again
       (second directory copy) and a third engine reads every key.  The running engine is NOT
       affected. *)
-| DBranch (torn : bool) (ops : list (dop * bool)) (res : list (list (Z * Z))).
+| DBranch (torn : bool) (ops : list (dop * option bool)) (res : list (list (Z * Z))).
 
 Definition dcase := list dcstep.
 
@@ -184,10 +189,11 @@ Definition all_reads (s : state) (n : nat) : list (list (Z * Z)) :=
 Definition all_spec (l : log) (n : nat) : list (list (Z * Z)) :=
   map (fun k => spec_read l k full_lo full_hi true) (keys_upto n 0%N).
 
-Fixpoint drun_ok (ops : list (dop * bool)) (d : dstate) (same : bool) : dstate * bool :=
+Fixpoint drun_ok (ops : list (dop * option bool)) (d : dstate) (same : bool) : dstate * bool :=
   match ops with
   | [] => (d, same)
-  | (o, b) :: r => let (d', b') := dstep d o in drun_ok r d' (same && Bool.eqb b b')
+  | (o, Some b) :: r => let (d', b') := dstep d o in drun_ok r d' (same && Bool.eqb b b')
+  | (o, None) :: r => let (d', _) := dstep d o in drun_ok r d' same   (* not observable: see DOpAny *)
   end.
 
 Fixpoint dcheck_steps (c : list dcstep) (d prev : dstate) (h hprev : list dop) (same ok : bool) : bool * bool :=
@@ -196,6 +202,9 @@ Fixpoint dcheck_steps (c : list dcstep) (d prev : dstate) (h hprev : list dop) (
   | DOp o b :: r =>
       let (d', b') := dstep d o in
       dcheck_steps r d' d (h ++ [o]) h (same && Bool.eqb b b') ok
+  | DOpAny o :: r =>
+      let (d', _) := dstep d o in
+      dcheck_steps r d' d (h ++ [o]) h same ok
   | DRead k lo hi asc res :: r =>
       dcheck_steps r d prev h hprev
         (same && zz_eqb res (read (mem d) k lo hi asc))
